@@ -521,7 +521,11 @@ def w_ops(ctx, rng, i):
                 tm = mi.BooleanImage(gen.mask(rng, tshape, ["all", "block", "halfplane"][rng.integers(0, 3)]))
                 opts["mask_all_true"] = bool(tm.all_true())
                 only = tm.mask.copy()
+                tdig = digest(tm)
                 res, T = call(src.warp_to_mask, rt, tm, t, warp_landmarks=True, **bkw)
+                if digest(tm) != tdig or not np.array_equal(tm.pixels[0], only):
+                    # the template is the caller's reference frame, reused for every image of a data set
+                    ctx.fail("warp_to_mask_modified_the_template_mask_it_was_given", cls=cls, mech="all_true" if only.all() else "partial")
                 if cls == "MaskedImage" and not np.array_equal(res.mask.pixels, tm.pixels):
                     ctx.fail("warp_to_mask_result_does_not_carry_the_template_mask", cls=cls)
                 if cls != "BooleanImage" and not tm.all_true():
